@@ -510,6 +510,106 @@ def handle_star(ctx, f, n, where):
            f'PYTHONHASHSEED (e.g. state {bad[0] if bad else ""})', file=f, line=n.lineno)
 
 
+MUTATING_METHODS = {'add', 'update', 'discard', 'remove', 'append', 'extend', 'insert', 'pop', 'clear', 'sort', 'reverse', 'setdefault', 'popitem',
+                    'difference_update', 'intersection_update', 'symmetric_difference_update', '__setitem__', '__delitem__'}
+
+
+def check_library_state(ctx):
+    """Objects handed out by an external library (the SQLAlchemy dialect and what hangs below it, module attributes of imported packages) are
+    shared with the rest of the process unless proven otherwise: class-level tables (reserved words, colspecs, type maps) are common.  Rebinding an
+    attribute ON the instance this call created is private; mutating IN PLACE anything reached THROUGH it is a write to state that may outlive the call."""
+    model = model_for(ctx.src)
+    own_callables = set(model.classes) | {'dict', 'list', 'set', 'tuple', 'frozenset', 'OrderedDict', 'defaultdict', 'deepcopy', 'copy'}
+    nroots = nsites = 0
+    for f in ctx.src.py_files('mindsdb_sql'):
+        tree = ctx.src.tree(f)
+        ext_modules = set()
+        for st in tree.body:
+            if isinstance(st, ast.Import):
+                for a in st.names:
+                    if not a.name.startswith('mindsdb_sql'):
+                        ext_modules.add((a.asname or a.name).split('.')[0])
+            elif isinstance(st, ast.ImportFrom) and st.module and not st.module.startswith('mindsdb_sql') and st.level == 0:
+                for a in st.names:
+                    ext_modules.add(a.asname or a.name)
+        ext_modules -= {'copy', 're', 'ast', 'typing', 'dataclasses', 'collections', 'itertools', 'json', 'datetime', 'dt', 'os', 'sys', 'List', 'dataclass', 'field'}
+        for cls in [n for n in ast.walk(tree) if isinstance(n, ast.ClassDef)]:
+            roots = set()       # self.<attr> holding an object built by an external callable
+            for n in ast.walk(cls):
+                if isinstance(n, ast.Assign) and isinstance(n.value, ast.Call):
+                    callee = n.value.func
+                    cname = (dotted(callee) or '').split('.')
+                    external = False
+                    if isinstance(callee, ast.Name):
+                        # a local name that holds a class looked up dynamically (getattr(module, ...)) or imported from outside
+                        # a class imported from outside, or a local variable holding a class of unknown origin (looked up in a table of dialect modules)
+                        local_funcs = {x.name for x in tree.body if isinstance(x, (ast.FunctionDef, ast.ClassDef))}
+                        external = callee.id in ext_modules or (callee.id not in own_callables and callee.id not in local_funcs)
+                    elif cname and cname[0] in ext_modules:
+                        external = True
+                    if external:
+                        for t in n.targets:
+                            if isinstance(t, ast.Attribute) and norm(t.value) == 'self':
+                                roots.add(f'self.{t.attr}')
+            if not roots:
+                continue
+            nroots += len(roots)
+            for fn in [m for m in cls.body if isinstance(m, ast.FunctionDef)]:
+                alias = {}
+                for n in walk_no_nested(fn):
+                    if isinstance(n, ast.Assign) and len(n.targets) == 1 and isinstance(n.targets[0], ast.Name) and isinstance(n.value, ast.Attribute):
+                        alias[n.targets[0].id] = n.value
+
+                def chain(e, depth=0):
+                    """-> (root text, hops below the root) or None"""
+                    hops = 0
+                    while True:
+                        txt = norm(e)
+                        if txt in roots:
+                            return txt, hops
+                        if isinstance(e, ast.Name) and e.id in alias and depth < 4:
+                            r = chain(alias[e.id], depth + 1)
+                            return (r[0], r[1] + hops) if r else None
+                        if isinstance(e, (ast.Attribute, ast.Subscript)):
+                            e = e.value
+                            hops += 1
+                            continue
+                        return None
+                for n in walk_no_nested(fn):
+                    recv = None
+                    what = None
+                    if isinstance(n, ast.AugAssign) and isinstance(n.target, (ast.Attribute, ast.Subscript)):
+                        recv, what = n.target, f'{norm(n.target)} {type(n.op).__name__}='
+                    elif isinstance(n, ast.Call) and isinstance(n.func, ast.Attribute) and n.func.attr in MUTATING_METHODS:
+                        recv, what = n.func.value, f'{norm(n.func)}()'
+                    elif isinstance(n, ast.Assign) and isinstance(n.targets[0], ast.Subscript):
+                        recv, what = n.targets[0].value, f'{norm(n.targets[0])} ='
+                    elif isinstance(n, ast.Assign) and isinstance(n.targets[0], ast.Attribute):
+                        # rebinding an attribute: private on the root instance itself, shared one level below
+                        r = chain(n.targets[0].value)
+                        if r is not None and r[1] >= 1:
+                            recv, what = n.targets[0].value, f'{norm(n.targets[0])} ='
+                    elif isinstance(n, ast.Delete):
+                        for t in n.targets:
+                            if isinstance(t, (ast.Subscript, ast.Attribute)):
+                                recv, what = t.value, f'del {norm(t)}'
+                    if recv is None:
+                        continue
+                    r = chain(recv)
+                    if r is None:
+                        continue
+                    root, hops = r
+                    if isinstance(n, ast.AugAssign) and hops == 0:
+                        continue
+                    nsites += 1
+                    ctx.ob('C20.library-state', f'{cls.name}.{fn.name}:{what}'[:110], False,
+                           f'{cls.name}.{fn.name}: `{what}` changes, in place, an object reached through {root} (built by an external library): tables hanging below a '
+                           f'library object (reserved words, type maps) are class-level and shared by every other instance in the process, so a later call sees the change',
+                           file=f, line=n.lineno, witness="SqlalchemyRender('Snowflake') then SqlalchemyRender('oracle')")
+    ctx.setcount('library_roots', nroots)
+    ctx.ob('C20.library-state', 'all', True, '')
+
+
 def run(ctx):
     ctx.explanation = (
         'Isolation by the standard static argument: a result can depend on history or another thread only through state '
@@ -529,6 +629,8 @@ def run(ctx):
     check_fresh(ctx)
     check_caller_objects(ctx)
     check_hash_order(ctx)
+    check_library_state(ctx)
+    ctx.floor('library_roots', 1)
     ctx.floor('functions_scanned', 450)
     ctx.floor('shared_write_sites', 20)
     ctx.floor('stateful_classes', 8)
